@@ -126,6 +126,7 @@ PROPS["C09"] = {
     "assumptions": [],
 }
 PROPS["C10"] = {
+    "extra_harness": ["TRACESRV"],
     "level_text": "Theorems (Lean 4, server connection transition system with 8 workers, any number of streams, most general handlers, every label sequence): after a read error, after a write error (the writer cancels the connection context) and after Stop, every non-input continuation of the read loop leads to `exited` within 3 steps and one is always enabled (serve_returns_on_read_err / _write_err / _stop, serve_can_return); the wait loop always makes progress and can finish (wait_loop_progress, wait_loop_can_finish); when Serve has returned every stream handler is gone, unregistered and cancelled (streams_finished_at_return); once the read loop has exited the connection context and every running unary handler's context are done (handlers_cancelled_at_return); once the connection context is done the writer and each worker has an enabled own step that brings it closer to `exited` (no_goroutine_left). Negative witnesses: unary_ctx_survives_conn, worker_stuck_in_handoff. Tied to /repo by 5 flags and the server skeletons, and by scenarios on the real Serve over a scripted transport: read failure and Stop after each prefix of the request sequence, write failure after j responses, 0-3 (quick) / 0-8 (thorough) unary and streaming handlers blocked in receive / send / on their context; monitors: Serve returns, handler exits precede it, contexts done, goroutine census back to baseline.",
     "level_note": "Trusted: Lean kernel; extractor; harness. Handlers are cooperative (return once their context is done) in the termination statements; 'Serve returns when a write fails' presupposes a transport whose Read honours its context (I8).",
     "technique": "Lean 4 proof (inductive invariants, distance measures over the server connection LTS) + flags/skeletons + fault enumeration at every position on the real Serve with goroutine census",
@@ -138,7 +139,7 @@ PROPS["C10"] = {
     "assumptions": ["I8"],
 }
 PROPS["C11"] = {
-    "extra_harness": ["TRACE"],
+    "extra_harness": ["TRACE", "TRACESRV"],
     "level_text": "Theorems (Lean 4, every reachable state, any number of streams/callers): whenever the server read loop is parked in the forwarding select (holding the registry lock) one of its own completions is enabled or the target handler - or the writer it waits for - can step (srv_no_wedge); likewise inside resetStream (reset_no_wedge); on the client, whenever the read loop holds a looked-up envelope the mutex is free and delivery, drop, or a step of the owner that leads there is enabled (mux_no_wedge, mux_no_wedge_take, mux_no_wedge_unregister). Negative witnesses: wedge_witness (server, pre-repair: no non-environment label enabled, for all labels), bad_dispatchOutsideLock (client deadlock incl. a bystander's register). Tied to /repo by flags, skeletons, the Mux trace replay, and scenarios on the real code: handlers returning after k of n messages for all 0<=k<n<=4 (8 thorough) with the forced order (handler held until the read loop is parked under the lock), callers cancelling with m responses unread, peers sending more than expected, 0-4 bystanders and a probe with a deadline afterwards.",
     "level_note": "Trusted: Lean kernel; extractor; harness. Known finding caller-never-reads (#10): a caller that neither reads nor cancels parks the client read loop; reproduced and printed as KNOWN-FINDING, never as a violation unless the probe hangs beyond its deadline.",
     "technique": "Lean 4 proof (deadlock-freedom: enabledness under an inductive invariant; decide-checked deadlock witnesses) + flags/skeletons + forced schedules on the real code",
